@@ -1376,6 +1376,45 @@ func c18Check(c *mc.Ctx, cs c18Case) {
 		}
 	}
 
+	// (3') lengths set without reading the matrix in between (a lazily computed product must follow the LAST length):
+	// NewPij(a) SetLength(a) read; SetLength(b) SetLength(b) read; SetLength(a) SetLength(b) SetLength(a) read
+	if len(ts) > 1 && !k.dead {
+		a, b := ts[len(ts)/2], ts[len(ts)-1]
+		if a == b {
+			b = ts[0]
+		}
+		var w *models.Pij
+		var err error
+		for _, plan := range [][]float64{{a, a}, {b, b}, {a, b, a}} {
+			var p c18M
+			t := plan[len(plan)-1]
+			hist := append([]float64{}, plan...) // the lengths set one after the other, the matrix read only after the last
+			if !k.call("setlength-unread", hist, func() {
+				for _, x := range plan {
+					if w == nil {
+						w, err = models.NewPij(k.m, x)
+					} else {
+						err = w.SetLength(x)
+					}
+					if err != nil {
+						return
+					}
+				}
+				p = k.read(w)
+			}) {
+				break
+			}
+			if err != nil {
+				k.viol("setlength/error", fmt.Sprintf("SetLength: %v", err), hist...)
+				break
+			}
+			c.Eval()
+			if !k.judgeExpm("setlength-unread/expm", p, t, hist...) {
+				break
+			}
+		}
+	}
+
 	// (4) closed-form models: analytical formula against the eigen-system the model publishes
 	if k.m.Analytical() && !k.dead {
 		for _, t := range ts {
